@@ -514,7 +514,12 @@ def _split(repo, col):
                             rng = (term_rat(rg.args[0], leaf), term_rat(rg.args[1], leaf))
         n, k, i = Rat.atom("n"), Rat.atom("k"), Rat.atom("i")
         one = Rat.const(1)
-        if set(parts) != {"first", "middle", "last"} or rng is None:
+        if parts and "last" not in parts and "conflict" not in parts:
+            col.bad(R, fi, "_split_branch_equally: the last part runs to the end of the section",
+                    f"every part is a slice with a fixed upper bound ({sorted(parts)}; none is open-ended): when the number of traced points is "
+                    f"not divisible by the number of parts, the trailing points of the section are dropped (total length shrinks, tip "
+                    f"coordinates vanish)", node=fi.node)
+        elif set(parts) != {"first", "middle", "last"} or rng is None:
             col.unk(R, fi, "_split_branch_equally: first / middle / last parts", f"parts recognised: {sorted(parts)}", node=fi.node)
         else:
             ok = parts["first"][0] is None and parts["first"][1].eq(n) and parts["middle"][0].eq(i * n - one) and \
@@ -562,6 +567,54 @@ def _split(repo, col):
     ok = bool(ts) and ts[0].value.op == "binop" and ts[0].value.name == "*"
     col.check(ok, R, fi, "every part inherits the type of its section (type repeated once per part)", "[type] * num_subbranches",
               f"types are extended by {ts[0].value.short(80) if ts else None}", node=ts[0].node if ts else fi.node)
+    # ---- (2b) _split_into_branches: a new branch starts where the row does not continue the previous row (parent != previous
+    # index) OR where the TYPE changes -- any type change, not only soma / non-soma
+    fi = repo.func(CU, "_split_into_branches")
+    ex = idx.expander(repo, fi)
+    terms = []
+    for s_ in ex.stores:
+        terms += [t_ for t_ in (s_.value, s_.key) if t_ is not None] + list(s_.guards)
+    terms += list(ex.returns)
+
+    def column_of(t_):
+        """k if t_ is column k of the current row(s): each(content)[k] / content[:, k][...]"""
+        if t_.op == "sub" and t_.args[0].op == "elem" and t_.args[0].args[0].op == "param" and t_.args[0].args[0].name == fi.params[0]:
+            k = t_.args[1]
+            return -k.args[0].name if (k.op == "unary" and k.name == "USub" and k.args[0].op == "const") else (k.name if k.op == "const" else None)
+        if t_.op == "sub" and t_.args[0].op == "sub":
+            return column_of_vec(t_.args[0])
+        return column_of_vec(t_)
+
+    def column_of_vec(t_):
+        if t_.op == "sub" and t_.args[0].op == "param" and t_.args[0].name == fi.params[0] and t_.args[1].op == "tuple" and len(t_.args[1].args) == 2:
+            k = t_.args[1].args[1]
+            return -k.args[0].name if (k.op == "unary" and k.name == "USub" and k.args[0].op == "const") else (k.name if k.op == "const" else None)
+        return None
+
+    direct, indirect = set(), set()
+    seen_k = set()
+    for t_ in terms:
+        for x in t_.walk():
+            if x.op == "cmp" and x.name == "!=" and len(x.args) == 2 and x.key() not in seen_k:
+                seen_k.add(x.key())
+                for side in x.args:
+                    k = column_of(side)
+                    if k is not None:
+                        direct.add(k)
+                    else:
+                        for y in side.walk():
+                            k2 = column_of(y)
+                            if k2 is not None and side.op == "cmp":
+                                indirect.add(k2)
+    if not direct and not indirect:
+        col.unk(R, fi, "_split_into_branches: a branch starts at a discontinuity of the trace or at a type change", "comparisons not recognised", node=fi.node)
+    else:
+        ok = {1, -1} <= direct
+        col.check(ok, R, fi, "_split_into_branches: a branch starts where parent != previous row OR type != previous type",
+                  f"direct comparisons of columns {sorted(direct)}",
+                  f"the branch-start condition compares columns {sorted(direct)} directly"
+                  + (f" and columns {sorted(indirect)} only through a derived flag (e.g. `type == 1`)" if indirect else "")
+                  + ": every change of the SWC type (column 1) must start a new section, e.g. an axon continuing a basal dendrite", node=fi.node)
     # ---- (3) _build_parents: parent = the branch whose LAST point is this branch's FIRST point
     fi = repo.func(CU, "_build_parents")
     ex = idx.expander(repo, fi)
